@@ -211,9 +211,15 @@ class Duration:
         return bool(self.total_picos())
 
     def __hash__(self):
-        if isinstance(self.total_picos(), (int, float)) and self.total_picos() % 1000000 == 0:
-            return hash(datetime.timedelta(microseconds=self.total_picos() / 1000000))
-        return hash((Duration, self.total_picos()))
+        picos = self.total_picos()
+        if isinstance(picos, (int, float)) and picos % 1000000 == 0:
+            # Equal to a timedelta of that many microseconds, so it hashes like one.
+            micros = picos // 1000000 if isinstance(picos, int) else picos / 1000000
+            try:
+                return hash(datetime.timedelta(microseconds=micros))
+            except OverflowError:
+                pass  # Beyond the range of timedelta: no timedelta is equal to this duration.
+        return hash((Duration, picos))
 
     def _decompose_into_amount_unit_suffix(self) -> tuple[int, str, str]:
         picos = self.total_picos()
